@@ -9,7 +9,10 @@ hostile argument vectors; (C) #expr/#ifexpr token sequences; (D) magic words on 
 namespace; (E) hostile page texts / template bodies: every nestable construct nested far beyond the
 depth limit (also under pre_expand), hostile argument NAMES in every place a name is read,
 bracket soups and pumped (unit*k) texts without any template, the package's placeholder
-characters in the input, and cycles walked through COMPUTED template names."""
+characters in the input, and cycles walked through COMPUTED template names; (F) contexts
+configured for OTHER wikis (zh/ku with LanguageConverter markers, fr/de/ja/ru; wiktionary and
+wikipedia): converter-marker soups, bracket soups, generated libraries with markers scattered
+over them, parser functions."""
 from __future__ import annotations
 
 import random
@@ -30,7 +33,11 @@ RULE = ("cases: (A) libraries of <=5 templates with arbitrary call graphs (cycle
         "blanks) in {{{N}}}, {{{N|d}}}, {{t|N=v}}, bodies, #invoke arguments and parent-frame arguments read from Lua; bracket soups "
         "and pumped texts prefix+unit*k+suffix over the bracket vocabulary incl. '-{}-', nowiki, comments (<= 400 chars random; every "
         "prefix x single token pumped to 2000 chars); placeholder characters; "
-        "three templates that call the template NAMED by their argument along square-free / periodic words. non-trivial = distinct "
+        "three templates that call the template NAMED by their argument along square-free / periodic words; (F) contexts of 8 other "
+        "wikis (lang_code zh/ku/fr/de/ja/ru x wiktionary/wikipedia, two per shard): soups over LanguageConverter markers -{ }- and "
+        "their halves (paired, nested, stray, overlapping, inside maths / next to parameter references / produced by templates), "
+        "bracket soups, acyclic generated libraries with markers scattered over bodies and page, every parser function x hostile "
+        "arguments. non-trivial = distinct "
         "case that reached a template expansion or a parser function call")
 ASSUMPTIONS = ["per-case CPU budget (ITIMER_VIRTUAL) 10 s quick / 20 s thorough stands for 'bounded time' on inputs <= 2 kB",
                "network-bound parser functions (#property, #statements) excluded; interwiki table initialised with a stub",
@@ -66,7 +73,9 @@ def floors(tier):
             "counters.E.hostile-argument-names": len(NAME_COMBOS), "sets.name-classes": 5,
             "counters.E.placeholder-chars": len(PLACEHOLDER_COMBOS), "counters.E.computed-name-walks": 90,
             "counters.E.computed-name-walks(branching)": 1, "counters.E.soup.pumped": 500, "counters.E.soup.random": 500,
-            "oracle.bracket-soup-returns-in-2s": 1800, "oracle.pumped-2kB-page-returns-in-5s": len(PUMP_COMBOS)}
+            "oracle.bracket-soup-returns-in-2s": 1800, "oracle.pumped-2kB-page-returns-in-5s": len(PUMP_COMBOS),
+            "sets.wikis": len(WIKIS), "counters.F.conv": 1500, "counters.F.soup": 800, "counters.F.lib": 500, "counters.F.pf": 1000,
+            "oracle.other-wiki-context-returns-str-in-budget": 4000}
 
 
 def shards(tier, seed):
@@ -96,10 +105,24 @@ def ctx():
 
 
 _LIB = {}
+_WIKI_CTX = {}
+
+
+def wiki_ctx(lang, project):
+    """A context configured for another wiki (the expander has language- and project-dependent branches: LanguageConverter
+    markers on zh/ku, localised namespaces, number format, full body expansion outside en.wiktionary)."""
+    key = (lang, project)
+    if key not in _WIKI_CTX:
+        from vf.core.wtp import fresh
+        cm = fresh(lua=True, pages=[("Module:m", 828, MODULE_M)], lang_code=lang, project=project)
+        _WIKI_CTX[key] = (cm, cm.__enter__())
+        import atexit
+        atexit.register(lambda: cm.__exit__(None, None, None))
+    return _WIKI_CTX[key][1]
 
 
 def load_library(c, lib_texts):
-    _LIB["cur"] = lib_texts
+    _LIB["cur"] = lib_texts if c is ctx() else _LIB.get("cur")    # bookkeeping is for the main (en) context only
     c.db_conn.execute("DELETE FROM pages WHERE namespace_id = 10")
     for n, b in lib_texts.items():
         if isinstance(b, str) and b.startswith("#REDIRECT>"):
@@ -676,6 +699,92 @@ def part_e(c, rng, obs, spec):
     return out
 
 
+# ---------------------------------------------------------------- part F: the same kinds of input on other wikis
+WIKIS = [("zh", "wiktionary"), ("ku", "wiktionary"), ("zh", "wikipedia"), ("fr", "wiktionary"), ("de", "wikipedia"), ("ja", "wiktionary"),
+         ("ku", "wikipedia"), ("ru", "wiktionary")]
+# LanguageConverter markup -{ ... }- and everything that looks like one of its halves in ordinary text
+CONV_TOK = ["-{", "}-", "-{}-", "}-{", "-{zh-hans:", ";zh-hant:", "-{ ", " }-", "{", "}", "-", "x", " ", "\n", "{{{1}}}", "{{{2|d}}}", "{{ta|", "}}",
+            "{{tc|a|b}}", "{{tr}}", "{{tr|1|9}}", "{{ts}}", "<math>e^{x}", "{1}</math>", "[[a|", "]]", "|", "<nowiki>", "</nowiki>", "{{#if:x|", "=="]
+CONV_LIB = {"ta": "[{{{1|}}}]", "tc": "-{zh-hans:{{{1}}};zh-hant:{{{2}}}}-", "tr": "{{{1}}}-{{{2}}}", "ts": "-{ {{ts}} }-"}
+
+
+def conv_text(rng):
+    r = rng.random()
+    if r < 0.3:
+        unit = "".join(rng.choice(CONV_TOK) for _ in range(rng.randint(1, 3)))
+        return (rng.choice(["", "", "-{", "}-", "{{ta|"]) + unit * rng.choice([2, 5, 12, 30]) + rng.choice(["", "", "}-", "-{", "}}"]))[:400]
+    return "".join(rng.choice(CONV_TOK) for _ in range(rng.randint(2, 25)))[:400]
+
+
+def mark_up(rng, text):
+    """Scatter converter markers / halves over a generated wikitext."""
+    for _ in range(rng.randint(1, 4)):
+        i = rng.randint(0, len(text))
+        text = text[:i] + rng.choice(["-{", "}-", "-{}-", "}-{", "-{zh-hans:", ";zh-hant:", "-"]) + text[i:]
+    return text
+
+
+def f_case(c, wiki, rng, obs, budget, kind):
+    """One case on the context of another wiki.  kinds: conv = converter-marker soups over CONV_LIB (2 s; <= 400 chars),
+    soup = the part-E bracket soups (2 s), lib = an acyclic generated library and page with markers scattered over bodies
+    and page (standard budget), pf = a parser function / magic word with hostile arguments (standard budget)."""
+    wtag = "%s.%s" % wiki
+    lib_texts = CONV_LIB
+    kw = {}
+    if kind == "conv":
+        text, bud = conv_text(rng), SOUP_BUDGET
+    elif kind == "soup":
+        text, bud = soup_text(rng)[0], SOUP_BUDGET
+    elif kind == "lib":
+        tags = set()
+        cfg = G.Cfg(include_tags=False, missing=True, max_args=2, table_marker=False)
+        lib_ast = G.gen_library(rng, rng.randint(1, 4), 2, cfg, tags)
+        lib_texts = {n: mark_up(rng, G.render(b)) if rng.random() < 0.6 else G.render(b) for n, b in lib_ast.items()}
+        text, bud = mark_up(rng, G.render(G.seq(rng, 2, list(lib_ast), False, cfg, tags))), budget
+        if rng.random() < 0.15:
+            kw = {"pre_expand": True}
+    else:
+        fn = rng.choice(_FNLIST)
+        text, bud = mark_up(rng, pf_case(rng, fn)) if rng.random() < 0.3 else pf_case(rng, fn), budget
+        obs.add("parser_functions(other-wikis)", fn)
+    load_library(c, lib_texts)
+    kind_run, val = run(c, "Pg", text, bud, **kw)
+    case = {"part": "F", "wiki": list(wiki), "kind": kind, "library": lib_texts, "text": text, "kw": kw}
+    obs.check("returns-str-in-budget")
+    obs.check("other-wiki-context-returns-str-in-budget")
+    obs.add("wikis", wtag)
+    obs.count("F." + kind)
+    what = {"conv": "language-converter-marker-soup", "soup": "bracket-soup-without-templates", "lib": "acyclic-library-with-converter-markers",
+            "pf": "parser-function"}[kind]
+    probs = []
+    if kind_run == "cpu":
+        probs.append(("no-return-within-cpu-budget/%s/lang_code=%s/stuck-in:%s" % (what, wiki[0], stuck_in(val).split("(")[0]), val))
+    elif kind_run == "exc":
+        probs.append(("raises:%s/%s/lang_code=%s" % (exc_sig(val), what, wiki[0]), repr(val)[:160] + " wiki=" + wtag + " text=" + text[:100]))
+    elif not isinstance(val, str):
+        probs.append(("expand-returns-non-str", type(val).__name__))
+    return case, probs
+
+
+_FNLIST = []
+
+
+def part_f(rng, obs, spec):
+    """Two wikis per shard (dealt by shard index, so every wiki is visited by four shards whatever the seed)."""
+    import wikitextprocessor.parserfns as PF
+    if not _FNLIST:
+        _FNLIST.extend(sorted(k for k in PF.PARSER_FUNCTIONS if k not in EXCLUDE))
+    idx, budget, tier = spec["idx"], spec["budget"], spec["tier"]
+    mult = {"quick": 1, "thorough": 25}[tier]
+    out = []
+    for wiki in (WIKIS[idx % len(WIKIS)], WIKIS[(idx * 3 + 1) % len(WIKIS)]):
+        c = wiki_ctx(*wiki)
+        for kind, n in (("conv", 60), ("soup", 30), ("lib", 20), ("pf", 40)):
+            for _ in range(n * mult):
+                out.append(f_case(c, wiki, rng, obs, budget, kind))
+    return out
+
+
 def run_shard(spec):
     import wikitextprocessor.core as core
     import wikitextprocessor.parserfns as PF
@@ -749,12 +858,17 @@ def run_shard(spec):
         obs.case(case, nontrivial=True, sample=case if len(case["text"]) < 200 else None)
         for sig, msg in probs:
             obs.violation(sig, msg, case)
+    for case, probs in part_f(random.Random(spec["seed"] * 11 + 3), obs, spec):
+        obs.count("part.F")
+        obs.case(case, nontrivial=True, sample=case if len(case["text"]) < 200 else None)
+        for sig, msg in probs:
+            obs.violation(sig, msg, case)
     obs.anchors.update(anchors.snapshot())
     return obs
 
 
 def replay(case):
-    c = ctx()
+    c = wiki_ctx(*case["wiki"]) if case.get("wiki") else ctx()
     if case["part"] == "A" or "library" in case:
         load_library(c, case["library"])
     elif case["part"] == "E":
